@@ -75,6 +75,14 @@ MUTANTS = [
     ("C16", "seeded C16m-1: deserialize_in_place skips 'equal' targets", "@patch", "/verif/seeded/C16m-1/patch.diff", None),
     ("C17", "seeded C17m-1: derivative parts taken out of the returned object", "@patch", "/verif/seeded/C17m-1/patch.diff", None),
     ("C17", "seeded C17m-2: flush-to-zero while the callable runs", "@patch", "/verif/seeded/C17m-2/patch.diff", None),
+    # ---- round 11 (informed adversaries) -------------------------------------------------------------------------------
+    ("C05", "seeded C05o-1: Jacobian strips of 128 outputs", "@patch", "/verif/seeded/C05o-1/patch.diff", None),
+    ("C05", "seeded C05o-2: mirrored Hessian panics on an empty input vector", "@patch", "/verif/seeded/C05o-2/patch.diff", None),
+    ("C16", "seeded C16o-1: visit_map returns without asking for the end of the map", "@patch", "/verif/seeded/C16o-1/patch.diff", None),
+    ("C16", "seeded C16o-2: struct written under another name than it is read with", "@patch", "/verif/seeded/C16o-2/patch.diff", None),
+    ("C17", "seeded C17o-2: format() differs from repr()", "@patch", "/verif/seeded/C17o-2/patch.diff", None),
+    ("C18", "seeded C18o-1: non-square matrix part shown with the wrong shape", "@patch", "/verif/seeded/C18o-1/patch.diff", None),
+    ("C18", "seeded C18o-2: buffer left dirty when the sink panics", "@patch", "/verif/seeded/C18o-2/patch.diff", None),
     # ---- C17: conformance (fault-free) ---------------------------------------------------------------------
     ("C17", "arcsin forwards to asinh", "src/python_macro.rs", "self.0.asin().into()", "self.0.asinh().into()"),
     ("C17", "reflected subtraction with swapped operands", "src/python_macro.rs", "(-self.0.clone() + lhs).into()", "(self.0.clone() - lhs).into()"),
